@@ -745,6 +745,8 @@ HAND_DOCS = [
     "{a: &x 1, b: *x}", "{a: &x 1, b: *x, l: [*x, 2]}", "[&x 1, *x, 2]", "[&x a, *x, *x]",
     "{s: !!set {a, b}, k: 1}", "[!!set {a, b}, a]",
     "{a: &b {a: 1}, b: {<<: *b, b: 5}}", "{a: &a {c: 1}, b: {<<: *a, a: 5, b: 6}}",
+    # a key that bears the name of its OWN anchor, in a hash that also merges another anchored map
+    "{a: &a {x: 1}, b: &b {y: 2}, <<: *a}",
 ]
 
 ROOT_PATHS = ["/", ""]
